@@ -151,39 +151,84 @@ def all_shapes(d):
     return [[x["w"], x["sg"]] for x in d["sigs"]] + [[1, False] for dd in d["doms"] if dd.get("rs")]
 
 
-def used_signals(d):
-    """indices of the design signals that occur anywhere (statement, memory expression, port)"""
-    acc = set(d["ins"]) | set(d["outs"])
+def signal_modules(d):
+    """for every design signal, the set of modules (indices) whose statements / memory wiring / ports mention it;
+    an inserter's control signal is mentioned in the modules of its subtree that have logic in the inserter's domain"""
+    nsig = len(d["sigs"])
+    acc = collections.defaultdict(set)
 
-    def ex(t):
-        acc.update(G.sig_ids(t))
+    def ex(t, k):
+        for i_ in G.sig_ids(t):
+            if i_ < nsig:
+                acc[i_].add(k)
 
-    def st(stmts):
+    def st(stmts, k):
         for s_ in stmts:
             if s_[0] == "as":
-                ex(s_[1]); ex(s_[2])
+                ex(s_[1], k); ex(s_[2], k)
             elif s_[0] == "if":
                 for c_, body in s_[1]:
-                    ex(c_); st(body)
+                    ex(c_, k); st(body, k)
                 if s_[2] is not None:
-                    st(s_[2])
+                    st(s_[2], k)
             else:
-                ex(s_[1])
+                ex(s_[1], k)
                 for _, body in s_[2]:
-                    st(body)
-    for md in d["mods"]:
-        for _, stmts in md["blocks"]:
-            st(stmts)
-        if md.get("wrap") and md["wrap"][0] in ("reset", "enable"):
-            acc.add(md["wrap"][2])
+                    st(body, k)
+    for i_ in list(d["ins"]) + list(d["outs"]):
+        acc[i_].add(0)
     mm = d.get("mem")
+    memdoms = set()
     if mm:
-        for e in [mm["waddr"], mm["wdata"], mm["wen"]] + [x for r_ in mm["reads"] for x in (r_["addr"], r_["en"])]:
-            ex(e)
+        es = [mm["waddr"], mm["wdata"], mm["wen"]] + [x for r_ in mm["reads"] for x in (r_["addr"], r_["en"])]
+        memdoms = {mm["wdom"]} | {r_["dom"] for r_ in mm["reads"] if r_["kind"] != "comb"}
         if mm.get("w2"):
-            for e in (mm["w2"]["addr"], mm["w2"]["data"], mm["w2"]["en"]):
-                ex(e)
-    return {i for i in acc if i < len(d["sigs"])}
+            es += [mm["w2"]["addr"], mm["w2"]["data"], mm["w2"]["en"]]
+            memdoms.add(mm["w2"]["dom"])
+        for e in es:
+            ex(e, mm["mod"])
+    for k, md in enumerate(d["mods"]):
+        for _, stmts in md["blocks"]:
+            st(stmts, k)
+
+    def subtree(k):
+        out = [k]
+        for j, md in enumerate(d["mods"]):
+            if md["parent"] == k:
+                out += subtree(j)
+        return out
+    for k, md in enumerate(d["mods"]):
+        wr = md.get("wrap")
+        if wr and wr[0] in ("reset", "enable"):
+            for j in subtree(k):
+                doms = {dom for dom, _ in d["mods"][j]["blocks"]}
+                if mm and mm["mod"] == j:
+                    doms |= memdoms
+                if wr[1] in doms:
+                    acc[wr[2]].add(j)
+    return acc
+
+
+def module_path(d, k):
+    names = []
+    while k is not None:
+        names.append("top" if d["mods"][k]["parent"] is None else d["mods"][k]["name"])
+        k = d["mods"][k]["parent"]
+    return "\\" + ".".join(reversed(names))
+
+
+def unnamed_ok(d, text):
+    """design signals that may legitimately have no name in the emitted text: zero-width signals (no nets, nothing to
+    name), signals nothing mentions, and signals mentioned only in modules the backend does not write at all (modules
+    without cells — pure wiring — are dropped by EmptyModuleChecker; such a signal is neither an output nor a register)"""
+    import re
+    emitted = set(re.findall(r"^module (\S+)$", text, flags=re.M))
+    sm = signal_modules(d)
+    ok = set()
+    for i_, sg in enumerate(d["sigs"]):
+        if sg["w"] == 0 or all(module_path(d, k) not in emitted for k in sm.get(i_, ())):
+            ok.add(i_)
+    return ok
 
 
 class DGen:
@@ -1275,10 +1320,11 @@ def run_impl(c):
             return [-1, sum(map(ord, type(e).__name__))]
     try:
         B, text, where = convert(d)
-        # a signal without a name in the emitted text is skipped only if the design does not use it at all;
-        # a USED signal the backend lost is compared (the model answers -4 for it)
-        used = used_signals(d)
-        skip = {i for i, wh in enumerate(where) if wh is None and i not in used}
+        # a signal without a name in the emitted text is skipped only if that is legitimate (see unnamed_ok);
+        # a signal mentioned in an emitted module that the backend lost is compared (the model answers -4 for it)
+        okset = unnamed_ok(d, text)
+        nsig = len(d["sigs"])
+        skip = {i for i, wh in enumerate(where) if wh is None and (i >= nsig or i in okset)}
     except Exception as e:
         skip = set()
     try:
@@ -1318,9 +1364,9 @@ def coq_term(c):
         for it in m_.items:
             CELL_HIST["process" if isinstance(it, R.Process) else (it.kind if it.kind.startswith("$") else "submodule")] += 1
     obs = []
-    used = used_signals(d)
+    okset = unnamed_ok(d, text)
     for si, (s, wh) in enumerate(zip(observed_signals(B), where)):
-        if wh is None and si not in used:
+        if wh is None and (si >= len(d["sigs"]) or si in okset):
             # the design does not use the signal and the backend did not name it: compare nothing for it
             obs.append(None)
         elif wh is None:
